@@ -33,8 +33,8 @@ ASSUMPTIONS = [
     '"already present" in a list means an entry with the same serialised selectorText',
     'a/**/b is invalid, not a descendant selector: comments are only generated where white space is optional or in addition to it',
 ]
-MIN_EVENTS = {'quick': {'oracle.selector': 24000, 'oracle.attached': 3000, 'oracle.list-step': 8000, 'rejections': 800, 'oracle.parse-list': 1100, 'mode.log': 2000, 'oracle.reassign': 1800},
-              'thorough': {'oracle.selector': 550000, 'oracle.attached': 80000, 'oracle.list-step': 200000, 'rejections': 20000, 'oracle.parse-list': 22000, 'mode.log': 40000, 'oracle.reassign': 36000}}
+MIN_EVENTS = {'quick': {'oracle.selector': 24000, 'oracle.attached': 3000, 'oracle.list-step': 8000, 'rejections': 800, 'oracle.parse-list': 1100, 'mode.log': 2000, 'oracle.reassign': 1800, 'oracle.member-in-place': 1500},
+              'thorough': {'oracle.selector': 550000, 'oracle.attached': 80000, 'oracle.list-step': 200000, 'rejections': 20000, 'oracle.parse-list': 22000, 'mode.log': 40000, 'oracle.reassign': 36000, 'oracle.member-in-place': 30000}}
 
 AXES = ['neutral', 'ws', 'ws-min', 'comments', 'case', 'escapes']
 
@@ -182,8 +182,14 @@ def run_list_history(ctx, cssutils, rng, ops_in=None, init_in=None, mode_in=None
         if script is not None:
             op = script[step]
         else:
-            k = rng.choice(['append', 'append', 'append-present', 'append-bad', 'assign', 'assign-bad', 'append-list', 'append-spelled'])
+            k = rng.choice(['append', 'append', 'append-present', 'append-bad', 'assign', 'assign-bad', 'append-list', 'append-spelled', 'member-text', 'item-set', 'member-bad'])
             op = [k]
+            if k in ('member-text', 'item-set', 'member-bad'):
+                # round 8: a member changed in place - through its own text or by item assignment - is what the list holds from then on
+                if not model:
+                    continue
+                op.append(rng.randrange(len(model)))
+                op.append(rng.choice(BAD[:-1]) if k == 'member-bad' else rng.choice(GOOD + model))
             if k == 'append':
                 op.append(rng.choice(GOOD))
             elif k == 'append-present':
@@ -233,6 +239,24 @@ def run_list_history(ctx, cssutils, rng, ops_in=None, init_in=None, mode_in=None
                 try:
                     r = sl.appendSelector(', '.join(op[1]))
                     if r is not None or sl.selectorText != before:
+                        ctx.violation('list.invalid-accepted', dict(case, failed_at=step), {'op': op, 'after': sl.selectorText, 'before': before})
+                        return
+                    ctx.count('rejections')
+                except xml.dom.DOMException:
+                    ctx.count('rejections')
+                outcome = 'rejected'
+            elif k == 'member-text':
+                sl[op[1]].selectorText = op[2]
+                model[op[1]] = canon(op[2])
+                ctx.count('oracle.member-in-place')
+            elif k == 'item-set':
+                sl[op[1]] = op[2]
+                model[op[1]] = canon(op[2])
+                ctx.count('oracle.member-in-place')
+            elif k == 'member-bad':
+                try:
+                    sl[op[1]].selectorText = op[2]
+                    if raising or sl.selectorText != before:
                         ctx.violation('list.invalid-accepted', dict(case, failed_at=step), {'op': op, 'after': sl.selectorText, 'before': before})
                         return
                     ctx.count('rejections')
